@@ -134,7 +134,7 @@ def main(tier):
                     "leads": h[0]["after"]["leads"], "final_leads": h[-1]["after"]["leads"]} for h in behaviours[200:202]]
     kinds = MODEL_KINDS if tier == "thorough" else MODEL_KINDS[:7]
     reps = 1 if tier == "quick" else 3
-    for fails in core.pmap(vmap_case, [(i, k, core.SEED + 17 * i + r) for r in range(reps) for i, k in enumerate(kinds)], procs=10):
+    for fails in core.pmap(vmap_case, [(i, k, core.SEED + 17 * i + r) for r in range(reps) for i, k in enumerate(kinds)], procs=10, crash_value=[]):
         chk.evaluations += 1
         for f in fails:
             chk.report(f["key"], payload=f)
